@@ -51,13 +51,13 @@ def generate(tier, want_sim=True, light=False):
         runs = [("InnerSmall", consts("InnerSmall", 2, max_len=1), None),
                 ("InnerDef", consts("InnerDef", 1), None),
                 ("InnerSmall", consts("InnerSmall", 1, widths="all", high=True), None),
-                ("InnerDef", consts("InnerDef", 2, forms="FormsPlain", max_len=1), None),
+                ("InnerDef", consts("InnerDef", 2, forms="FormsPlain", max_len=2), None),
                 ("InnerDef", consts("InnerDef", 4, max_types=2, max_len=2, widths="all", high=(sd % 2 == 0)), 40)]
     elif tier == "quick":
         runs = [("InnerSmall", consts("InnerSmall", 2), None),
                 ("InnerDef", consts("InnerDef", 1), None),
                 ("InnerSmall", consts("InnerSmall", 1, widths="all", high=True), None),
-                ("InnerDef", consts("InnerDef", 2, forms="FormsPlain", max_len=1), None)]
+                ("InnerDef", consts("InnerDef", 2, forms="FormsPlain", max_len=2), None)]
         if want_sim:
             runs.append(("InnerDef", consts("InnerDef", 4, max_types=2, max_len=3, widths="all", high=(sd % 2 == 0)), 150))
     else:
